@@ -377,6 +377,12 @@ fn error_signature(corpus: &Corpus, prefix: &str, kind: &str, e: &str, rc: &ReqC
     if msg.contains("index out of bounds") && e.contains("bucket/composite/collector.rs") {
         return "composite-as-sub-aggregation/panic:index-out-of-bounds-in-add_intermediate_bucket_result".to_string();
     }
+    if msg.contains("attempt to subtract with overflow") && e.contains("bucket/composite/collector.rs") {
+        return "composite/memory-accounting:subtract-with-overflow-when-the-bucket-map-shrinks".to_string();
+    }
+    if msg.contains("buckets[pos].range.contains(&val)") {
+        return "range/value-u64-max:debug_assert-range-contains-fails-for-the-last-open-bucket".to_string();
+    }
     let file = e
         .split(" @ ")
         .nth(1)
